@@ -457,7 +457,7 @@ func (db *DB) WaitPosExact(ctx context.Context, target ltx.Pos) error {
 	for {
 		select {
 		case <-ctx.Done():
-			return context.Cause(ctx)
+			return contextErr(ctx)
 		case <-ticker.C:
 			pos := db.Pos()
 			if pos.TXID < target.TXID {
@@ -2952,7 +2952,7 @@ func (db *DB) AcquireWriteLock(ctx context.Context, fn func() error) (_ *GuardSe
 
 		select {
 		case <-ctx.Done():
-			return nil, context.Cause(ctx)
+			return nil, contextErr(ctx)
 		case <-ticker.C:
 			d := (2 ^ time.Duration(i)) * interval
 			if d > maxInterval {
@@ -3475,7 +3475,7 @@ func (db *DB) WriteSnapshotTo(ctx context.Context, dst io.Writer) (header ltx.He
 	for pgno := uint32(1); pgno <= pageN; pgno++ {
 		select {
 		case <-ctx.Done():
-			return header, trailer, context.Cause(ctx)
+			return header, trailer, contextErr(ctx)
 		default:
 		}
 
